@@ -29,6 +29,8 @@ REVD = {hashlib.md5(b).hexdigest(): c for c, b in CONTENTS.items()}
 
 def walk(root):
     files, extra = {}, []
+    if os.path.islink(root) and not os.path.exists(root):
+        return {"a": "other"}, []
     if os.path.isfile(root):
         with open(root, "rb") as fh:
             return {"a": REVD.get(hashlib.md5(fh.read()).hexdigest(), "other")}, []
@@ -38,8 +40,11 @@ def walk(root):
         for f in fs_:
             fp = os.path.join(r, f)
             rel = os.path.relpath(fp, root)
-            with open(fp, "rb") as fh:
-                c = REVD.get(hashlib.md5(fh.read()).hexdigest(), "other")
+            try:
+                with open(fp, "rb") as fh:
+                    c = REVD.get(hashlib.md5(fh.read()).hexdigest(), "other")
+            except FileNotFoundError:     # a link whose target is not there: what the checkout left holds no bytes
+                c = "other"
             if rel in REV:
                 files[REV[rel]] = c
             else:
@@ -107,6 +112,9 @@ def run_case(case):
         odb = cls(fs, os.path.join(root, "cache"), **cfg)
         # ---- object route
         staging, meta, obj = build(odb, spell(srcd), fs, "md5")
+        if case["id"] % 3 == 0:
+            # first the default transfer (shallow: the directory object only), then the full one
+            transfer(staging, odb, {obj.hash_info})
         transfer(staging, odb, {obj.hash_info}, shallow=False)
         if single:
             listing = {"a": REVD.get(obj.hash_info.value, "other")}
@@ -117,9 +125,12 @@ def run_case(case):
             reloaded = {REV.get("/".join(k), "?" + "/".join(k)): REVD.get(hi.value, "other") for k, _m, hi in Tree.load(odb, obj.hash_info)}
             nfiles, size = meta.nfiles, meta.size
         f1 = os.path.join(root, "fresh-object")
-        checkout(spell(f1), fs, obj if single else Tree.load(odb, obj.hash_info), odb, state=state)
-        fresh = {"object": walk(f1)}
         raised = {}
+        try:
+            checkout(spell(f1), fs, obj if single else Tree.load(odb, obj.hash_info), odb, state=state)
+        except Exception as exc:  # noqa: BLE001 - the library's failure is the observation (the walk tells what is there)
+            raised["object"] = type(exc).__name__
+        fresh = {"object": walk(f1) if os.path.lexists(f1) else ({}, [])}
         # ---- index route (directories)
         if not single:
             odb2 = cls(fs, os.path.join(root, "cache2"), **cfg)
